@@ -22,12 +22,12 @@ pub fn plan(prop: &str, tier: &str) -> Vec<PartPlan> {
     let h = |q: u32, th: u32| if t { pp("hist", 16, th / 16) } else { pp("hist", 16, q / 16) };
     let mut v = plan_base(prop, tier, &h);
     // thorough tier: the history parts were budgeted when histories were cheaper (before the composite
-    // operations were added); 40 % of the nominal numbers keeps every thorough check within tens of minutes
+    // operations were added); 15 % of the nominal numbers keeps every thorough check at roughly ten to fifteen minutes
     // on 16 idle cores and well inside the watchdog limit on a loaded machine
     if t {
         for p in v.iter_mut() {
             if p.name.starts_with("hist") || p.name == "dual" || p.name == "twins" {
-                p.cases = (p.cases * 2 / 5).max(1);
+                p.cases = (p.cases * 3 / 20).max(1);
             }
         }
     }
@@ -53,7 +53,7 @@ fn plan_base(prop: &str, tier: &str, h: &dyn Fn(u32, u32) -> PartPlan) -> Vec<Pa
     let t = tier == "thorough";
     match prop {
         "C01" => vec![h(16000, 384000)],
-        "C02" => vec![if t { pp("deliver", 16, 128000 / 16) } else { pp("deliver", 16, 16000 / 16) }, h(8000, 192000)],
+        "C02" => vec![if t { pp("deliver", 16, 64000 / 16) } else { pp("deliver", 16, 16000 / 16) }, h(8000, 192000)],
         "C03" | "C04" => {
             // second configuration: capacity-1 caches, so that the live instance itself reads from packs
             let mut c1 = if t { pp("hist-cap1", 8, 128000 / 8) } else { pp("hist-cap1", 8, 8000 / 8) };
@@ -81,14 +81,14 @@ fn plan_base(prop: &str, tier: &str, h: &dyn Fn(u32, u32) -> PartPlan) -> Vec<Pa
             v
         }
         "C09" => {
-            let mut c1 = if t { pp("faults-cap1", 8, 32000 / 8) } else { pp("faults-cap1", 8, 4000 / 8) };
+            let mut c1 = if t { pp("faults-cap1", 8, 16000 / 8) } else { pp("faults-cap1", 8, 4000 / 8) };
             c1.env = vec![("MELDA_ARRAYDESCRIPTORS_CACHE_CAP".to_string(), "1".to_string()), ("MELDA_DATA_CACHE_CAP".to_string(), "1".to_string())];
-            vec![if t { pp("faults", 16, 96000 / 16) } else { pp("faults", 16, 12000 / 16) }, c1]
+            vec![if t { pp("faults", 16, 48000 / 16) } else { pp("faults", 16, 12000 / 16) }, c1]
         }
         "C10" => {
             let mut b = if t { pp("damage-b", 8, 40000 / 8) } else { pp("damage-b", 8, 8000 / 8) };
             b.env = vec![("MELDA_ARRAYDESCRIPTORS_CACHE_CAP".to_string(), "1".to_string()), ("MELDA_DATA_CACHE_CAP".to_string(), "1".to_string())];
-            vec![if t { pp("damage", 16, 40000 / 16) } else { pp("damage", 16, 8000 / 16) }, b]
+            vec![if t { pp("damage", 16, 24000 / 16) } else { pp("damage", 16, 8000 / 16) }, b]
         }
         "C11" => vec![h(12000, 256000), if t { pp("stacks", 16, 6400 / 16) } else { pp("stacks", 16, 320 / 16) }],
         "C12" => vec![h(16000, 384000)],
